@@ -441,55 +441,88 @@ def saoPermission (s : State) (creator msgProvider : Addr) (owner : Did) (dataId
 /-! ### end-blocker helpers -/
 def MaxTries : Nat := 10
 
-/-- `HandleTimeoutOrder(orderId)`; errors of callees are ignored as in the Go code, panics propagate. -/
-def handleTimeoutOrder (e : Env) (s : State) (orderId : Nat) : TxM State := do
-  let some order := s.getOrder orderId | return s
-  if order.status = OrderPending then
+/-- the shards of an order as the timeout handler sees them -/
+structure TimeoutView where
+  timeoutShards : List Shard   -- still waiting
+  completed : List Nat
+  uncompleted : List Nat
+  sps : List Addr
+
+def timeoutView (s : State) (order : Order) : TimeoutView :=
+  let shs := order.shards.filterMap (fun id => (s.getShard id).map (fun sh => (id, sh)))
+  { timeoutShards := (shs.filter (fun x => x.2.status = ShardWaiting)).map (·.2),
+    completed := (shs.filter (fun x => x.2.status = ShardCompleted)).map (·.1),
+    uncompleted := (shs.filter (fun x => x.2.status ≠ ShardCompleted)).map (·.1),
+    sps := shs.map (·.2.sp) }
+
+/-- no lifetime left for another interval: last examination (the `fix:` of F15) -/
+def lastChance (s : State) (order : Order) : Bool :=
+  addU64 (toU64 s.h) order.timeout ≥ addU64 order.createdAt order.duration
+
+/-- the handler gives up: no lifetime left, or more than ten intervals since creation -/
+def giveUpDue (s : State) (order : Order) : Bool :=
+  lastChance s order || decide (subU64 (toU64 s.h) order.createdAt > (MaxTries * order.timeout) % U64)
+
+/-- nothing is waiting: drop the shards that never completed -/
+def timeoutSettle (s : State) (order : Order) (v : TimeoutView) : State :=
+  let s := v.uncompleted.foldl (fun s id => s.removeShard id) s
+  if v.uncompleted.length ≠ 0 then s.setOrder { order with shards := v.completed } else s
+
+/-- the coins returned when the unfinished replicas of a partly stored order are given up -/
+def giveUpRefund (order : Order) (timeoutCount : Nat) : Int :=
+  Dec.truncate (Dec.ofInt order.amount -
+    Dec.mulInt (Dec.mulInt (Dec.mulInt order.unitPrice (toI64 order.size)) (order.replica - timeoutCount)) (toI64 order.duration))
+
+/-- give up: cancel and refund an order that never completed, or cut a partly stored order down
+    to its completed replicas and refund the rest -/
+def timeoutGiveUp (e : Env) (s : State) (order : Order) (v : TimeoutView) (orderId : Nat) : TxM State :=
+  if order.status ≠ OrderCompleted then do
+    let s := order.shards.foldl (fun s id => s.removeShard id) s
     let (s, _) ← cancelOrder e s orderId
     return s
-  -- no lifetime left for another interval: last examination (the `fix:` of F15)
-  let lastChance : Bool := addU64 (toU64 s.h) order.timeout ≥ addU64 order.createdAt order.duration
-  let shs := order.shards.filterMap (fun id => (s.getShard id).map (fun sh => (id, sh)))
-  let timeoutShards := (shs.filter (fun x => x.2.status = ShardWaiting)).map (·.2)
-  let completed := (shs.filter (fun x => x.2.status = ShardCompleted)).map (·.1)
-  let uncompleted := (shs.filter (fun x => x.2.status ≠ ShardCompleted)).map (·.1)
-  let sps := shs.map (·.2.sp)
-  let timeoutCount := timeoutShards.length
-  if timeoutCount = 0 then
-    let s := uncompleted.foldl (fun s id => s.removeShard id) s
-    if uncompleted.length ≠ 0 then return s.setOrder { order with shards := completed }
-    return s
-  let (s, randSp) ← (if lastChance then pure (s, []) else randomSP s timeoutCount sps (toI64 order.size) : TxM (State × List Node))
-  if randSp.length = 0 then
-    if lastChance ∨ subU64 (toU64 s.h) order.createdAt > (MaxTries * order.timeout) % U64 then
-      if order.status ≠ OrderCompleted then
-        let s := order.shards.foldl (fun s id => s.removeShard id) s
-        let (s, _) ← cancelOrder e s orderId
-        return s
-      else
-        let s := uncompleted.foldl (fun s id => s.removeShard id) s
-        let order := { order with replica := order.replica - timeoutCount, shards := completed }
-        let refundDec := Dec.ofInt order.amount - Dec.mulInt (Dec.mulInt (Dec.mulInt order.unitPrice (toI64 order.size)) order.replica) (toI64 order.duration)
-        let refund := Dec.truncate refundDec
-        if refund < 0 then throw "negative coin"
-        if refund ≠ 0 then
-          let s := match s.paymentAddress order.owner with
-            | some acc => (match s.send e.modMarket acc refund with | .ok s' => s' | .error _ => s)
-            | none => s
-          if order.amount - refund < 0 then throw "negative coin amount"
-          return s.setOrder { order with amount := order.amount - refund }
-        return s.setOrder order
-    else
-      return setTimeoutOrderBlock s order.id (addU64 (toU64 s.h) order.timeout)
   else
-    let pairs := randSp.zip timeoutShards
-    if randSp.length > timeoutShards.length then throw "index out of range"
-    let (order, s) := pairs.foldl (fun (acc : Order × State) (x : Node × Shard) =>
-        let s := acc.2.setShard { x.2 with status := ShardTimeout }
-        let (nsh, s) := newShardTask s acc.1 x.1.creator
-        ({ acc.1 with shards := acc.1.shards ++ [nsh.id] }, s)) (order, s)
-    let s := s.setOrder order
-    return setTimeoutOrderBlock s order.id (addU64 (toU64 s.h) order.timeout)
+    let s := v.uncompleted.foldl (fun s id => s.removeShard id) s
+    let refund := giveUpRefund order v.timeoutShards.length
+    let order := { order with replica := order.replica - v.timeoutShards.length, shards := v.completed }
+    if refund < 0 then throw "negative coin" else
+    if refund ≠ 0 then
+      let s := match s.paymentAddress order.owner with
+        | some acc => (match s.send e.modMarket acc refund with | .ok s' => s' | .error _ => s)
+        | none => s
+      if order.amount - refund < 0 then throw "negative coin amount" else
+      pure (s.setOrder { order with amount := order.amount - refund })
+    else pure (s.setOrder order)
+
+/-- hand each waiting shard to a replacement provider and look again one interval later -/
+def timeoutReassign (s : State) (order : Order) (v : TimeoutView) (randSp : List Node) : TxM State :=
+  if randSp.length > v.timeoutShards.length then throw "index out of range" else
+  let pairs := randSp.zip v.timeoutShards
+  let (order, s) := pairs.foldl (fun (acc : Order × State) (x : Node × Shard) =>
+      let s := acc.2.setShard { x.2 with status := ShardTimeout }
+      let (nsh, s) := newShardTask s acc.1 x.1.creator
+      ({ acc.1 with shards := acc.1.shards ++ [nsh.id] }, s)) (order, s)
+  let s := s.setOrder order
+  pure (setTimeoutOrderBlock s order.id (addU64 (toU64 s.h) order.timeout))
+
+/-- `HandleTimeoutOrder(orderId)`; errors of callees are ignored as in the Go code, panics propagate. -/
+def handleTimeoutOrder (e : Env) (s : State) (orderId : Nat) : TxM State :=
+  match s.getOrder orderId with
+  | none => pure s
+  | some order =>
+    if order.status = OrderPending then
+      match cancelOrder e s orderId with
+      | .ok (s, _) => pure s
+      | .error m => throw m
+    else
+    let v := timeoutView s order
+    if v.timeoutShards.length = 0 then pure (timeoutSettle s order v) else
+    match (if lastChance s order then pure (s, []) else randomSP s v.timeoutShards.length v.sps (toI64 order.size) : TxM (State × List Node)) with
+    | .error m => throw m
+    | .ok (s', randSp) =>
+      if randSp.length = 0 then
+        if giveUpDue s order then timeoutGiveUp e s' order v orderId
+        else pure (setTimeoutOrderBlock s' order.id (addU64 (toU64 s'.h) order.timeout))
+      else timeoutReassign s' order v randSp
 
 /-- `HandleExpiredShard(shardId)` -/
 def handleExpiredShard (e : Env) (s : State) (shardId : Nat) : TxM State := do
